@@ -275,6 +275,7 @@ func (p *protocolV2) messagePump(client *clientV2, startedChan chan bool) {
 			flusherChan = outputBufferTicker.C
 		}
 
+		verifPoint("proto.pump.afterGuard")
 		select {
 		case <-flusherChan:
 			// if this case wins, we're either starved
@@ -356,6 +357,7 @@ func (p *protocolV2) messagePump(client *clientV2, startedChan chan bool) {
 			if sampleRate > 0 && rand.Int31n(100) > sampleRate {
 				continue
 			}
+			verifPoint("proto.pump.afterRecv")
 			msg.Attempts++
 			subChannel.StartInFlightTimeout(msg, client.ID, msgTimeout)
 			client.SendingMessage()
@@ -731,6 +733,7 @@ func (p *protocolV2) FIN(client *clientV2, params [][]byte) ([]byte, error) {
 			fmt.Sprintf("FIN %s failed %s", *id, err.Error()))
 	}
 
+	verifPoint("proto.fin.beforeClientCount")
 	client.FinishedMessage()
 
 	return nil, nil
@@ -778,6 +781,7 @@ func (p *protocolV2) REQ(client *clientV2, params [][]byte) ([]byte, error) {
 			fmt.Sprintf("REQ %s failed %s", *id, err.Error()))
 	}
 
+	verifPoint("proto.req.beforeClientCount")
 	client.RequeuedMessage()
 
 	return nil, nil
